@@ -76,7 +76,7 @@ func Sinqi(n int, work []float64, ifac []int) {
 //	x       for i=0, ..., n-1
 //	          x[i] = (-1)^(i)*x[n-1]
 //	            + the sum from k=0 to k=n-2 of
-//	              2*x[k]*sin((2*i+1)*k*pi/(2*n))
+//	              2*x[k]*sin((2*i+1)*(k+1)*pi/(2*n))
 //
 //	        A call of Sinqf followed by a call of
 //	        Sinqb will multiply the sequence x by 4*n.
@@ -141,7 +141,7 @@ func Sinqf(n int, x, work []float64, ifac []int) {
 //
 //	x       for i=0, ..., n-1
 //	          x[i]= the sum from k=0 to k=n-1 of
-//	            4*x[k]*sin((2*k+1)*i*pi/(2*n))
+//	            4*x[k]*sin((2*k+1)*(i+1)*pi/(2*n))
 //
 //	        A call of Sinqb followed by a call of
 //	        Sinqf will multiply the sequence x by 4*n.
